@@ -73,7 +73,7 @@ def select(prop):
         if K.guard_relevant:
             ps.add("C07")
         if prop in ps:
-            out.append((K, fac))
+            out.append((K, getattr(K, "facets", None) or fac))
     return out
 
 
